@@ -11,10 +11,15 @@ import ExoVerif.Model.GenesisAssets
     x/oracle/genesis.go                  ExportGenesis = GetParams, GetAllPrices, GetValidatorUpdateBlock, GetIndexRecentParams,
                                          GetIndexRecentMsg, GetAllRecentMsg, GetAllRecentParams, GetAllStakerInfosAssets,
                                          GetAllStakerListAssets; InitGenesis = the matching setters. The validator nonces
-                                         (KeyNonce/value/…) are in no genesis field (F-18f). GetAllStakerListAssets iterates the
-                                         module store itself with the key prefix as iterator prefix, so `iterator.Key()` — which
-                                         it exports as asset id — is the FULL key, prefix included; SetStakerList prepends the
-                                         prefix again (`OracleCfg.listKeyFull`, F-18l).
+                                         (KeyNonce/value/…) are in no genesis field (F-18f). Before the F-18l repair
+                                         GetAllStakerListAssets iterated the module store itself with the key prefix as iterator
+                                         prefix, so `iterator.Key()` — which it exports as asset id — was the FULL key, prefix
+                                         included, and SetStakerList prepended the prefix again (`OracleCfg.listKeyFull`); now it
+                                         iterates a prefix store like the other exporters.
+    x/oracle/keeper/native_token.go      UpdateNSTValidatorListForStaker, the branch that removes a staker whose balance reached
+                                         zero (`removeStaker`): since the F-18m / F-18n repairs the list entry of the asset is
+                                         deleted with its last staker and the StakerIndex stored in the infos of the stakers behind
+                                         the removed one is rewritten (`NstCfg`).
   A collection is the list of its (key, value) entries in iteration order with `KV.set` (replace in place or append): an
   import that re-inserts the entries of a duplicate-free list in their order rebuilds the list. Values other than the
   fields the code inspects are opaque strings. The in-memory aggregator / caches are not part of the persisted state
@@ -124,8 +129,10 @@ structure OracleCfg where
   listKeyFull : Bool
 deriving DecidableEq, Repr, Inhabited
 
-/-- the code as it is -/
-def codeOracleCfg : OracleCfg := ⟨"NativeToken/stakerList/value/", true⟩
+/-- the code as it is (after the F-18l repair): the exporter iterates a prefix store, the key is the asset id -/
+def codeOracleCfg : OracleCfg := ⟨"NativeToken/stakerList/value/", false⟩
+/-- the code before the repair. Kept for the regression theorems. -/
+def preFixOracleCfg : OracleCfg := ⟨"NativeToken/stakerList/value/", true⟩
 
 /-- GetAllStakerInfosAssets: a new StakerInfosAssets whenever the asset id of the key changes -/
 def groupInfos (l : List ((String × String) × StakerInfo)) : List (String × List StakerInfo) :=
@@ -158,5 +165,49 @@ def initOracle (d : OracleDoc) : Oracle :=
     nonces := [] }
 
 def roundtripOracle (cfg : OracleCfg) (s : Oracle) : Oracle := initOracle (exportOracle cfg s)
+
+/-! ## native restaking: the staker list and the staker infos of ONE asset, and what Validate asks of their export -/
+
+structure NstCfg where
+  /-- the list entry is deleted when its last staker is removed (F-18m repair) -/
+  deleteEmptyList : Bool
+  /-- the StakerIndex of the stakers behind a removed one is rewritten (F-18n repair) -/
+  shiftIndexes : Bool
+deriving DecidableEq, Repr, Inhabited
+
+def codeNstCfg : NstCfg := ⟨true, true⟩
+def preFixNstCfg : NstCfg := ⟨false, false⟩
+
+/-- one NST asset: whether the NativeToken/stakerList/value/<asset> entry exists, and the stakers in list order, each with
+    the StakerIndex stored in its info (a staker is in the list exactly when its info exists) -/
+structure Nst where
+  listPresent : Bool
+  stakers : List (String × Int)
+deriving DecidableEq, Repr, Inhabited
+
+/-- the infos in list order carry the positions k, k+1, … -/
+def indexedFrom (k : Int) : List (String × Int) → Bool
+  | [] => true
+  | (_, i) :: r => decide (i = k) && indexedFrom (k + 1) r
+
+/-- x/oracle/types/genesis.go Validate, the clauses about one asset's staker_list_assets / staker_infos_assets entries:
+    both or neither present (a StakerInfosAssets entry exists iff the asset has an info), same length (by construction
+    here), no staker twice, every info's StakerIndex = its position in the list -/
+def validateNst (s : Nst) : Bool :=
+  (s.listPresent == !s.stakers.isEmpty) && decide (s.stakers.map (·.1)).Nodup && indexedFrom 0 s.stakers
+
+def renumber (k : Int) : List (String × Int) → List (String × Int)
+  | [] => []
+  | (a, _) :: r => (a, k) :: renumber (k + 1) r
+
+/-- the list without `addr`; with `shift` the stakers behind it get their new position as StakerIndex -/
+def removeFrom (shift : Bool) (addr : String) (k : Int) : List (String × Int) → List (String × Int)
+  | [] => []
+  | (a, i) :: r => if a = addr then (if shift then renumber k r else r) else (a, i) :: removeFrom shift addr (k + 1) r
+
+/-- UpdateNSTValidatorListForStaker, a withdrawal that brings the balance of `addr` (a staker of the list) to zero -/
+def removeStaker (cfg : NstCfg) (s : Nst) (addr : String) : Nst :=
+  let rest := removeFrom cfg.shiftIndexes addr 0 s.stakers
+  { listPresent := if rest.isEmpty && cfg.deleteEmptyList then false else s.listPresent, stakers := rest }
 
 end ExoVerif.Genesis
